@@ -319,7 +319,8 @@ Section Arrange.
       1 <= r /\ r <= lenN es /\
       (forall k x, 1 <= k -> k < r -> nth_optN es' k = Some x -> locE x = true) /\
       (forall k x, r <= k -> nth_optN es' k = Some x -> locE x = false) /\
-      (forall q, nth_optN es' (retarget log q) = nth_optN es q).
+      (forall q, nth_optN es' (retarget log q) = nth_optN es q) /\
+      swaps_in (lenN es) log.
   Proof.
     intros H1 H64. pose proof esz_pos as Hesz.
     assert (Hloc : locals_upto es 1) by (intros k x ? ?; lia).
@@ -329,7 +330,7 @@ Section Arrange.
     exists es', r, log. cbn [app]. split; [reflexivity|]. subst es'.
     split; [apply apply_swaps_perm|]. split; [exact E2|]. split; [now apply apply_swaps_first|].
     split; [exact E3|]. split; [exact E4|]. split; [exact E5|]. split; [exact E6|].
-    intro q. now apply apply_swaps_retarget.
+    split; [|exact E7]. intro q. now apply apply_swaps_retarget.
   Qed.
 End Arrange.
 
@@ -358,7 +359,8 @@ Theorem arrange_symbols_correct c e (syms : list sym) tl :
     1 <= r /\ r <= lenN syms /\
     (forall k x, 1 <= k -> k < r -> nth_optN syms' k = Some x -> sym_is_local x = true) /\
     (forall k x, r <= k -> nth_optN syms' k = Some x -> sym_is_local x = false) /\
-    (forall q, nth_optN syms' (retarget log q) = nth_optN syms q).
+    (forall q, nth_optN syms' (retarget log q) = nth_optN syms q) /\
+    swaps_in (lenN syms) log.
 Proof.
   cbv zeta. intros H1 H64.
   apply (arrange_loop_correct (enc_sym c e) c sym_is_local (lenN_enc_sym c e)); try assumption.
@@ -383,10 +385,11 @@ Theorem arrange_local_symbols_correct junk el symsec el1 s s1 c e (syms : list s
     1 <= r /\ r <= lenN syms /\
     (forall k x, 1 <= k -> k < r -> nth_optN syms' k = Some x -> sym_is_local x = true) /\
     (forall k x, r <= k -> nth_optN syms' k = Some x -> sym_is_local x = false) /\
-    (forall q, nth_optN syms' (retarget log q) = nth_optN syms q).
+    (forall q, nth_optN syms' (retarget log q) = nth_optN syms q) /\
+    swaps_in (lenN syms) log /\ el2 = upd_sec el1 symsec s2.
 Proof.
   cbv zeta. intros Hd Hc He Hn Hg H1 H64.
-  destruct (arrange_symbols_correct c e syms tl H1 H64) as (syms' & r & log & HL & P1 & P2 & P3 & P4 & P5 & P6 & P7 & P8).
+  destruct (arrange_symbols_correct c e syms tl H1 H64) as (syms' & r & log & HL & P1 & P2 & P3 & P4 & P5 & P6 & P7 & P8 & P9).
   cbv zeta in HL.
   unfold arrange_local_symbols. rewrite Hd. cbn [bind]. rewrite Hc, He, Hn, HL. cbn [bind]. rewrite Hg.
   eexists _, _, syms', r, log. split; [reflexivity|].
